@@ -63,12 +63,14 @@ fn pair(rng: &mut Rng, lo: usize, hi: usize) -> (usize, usize) {
     }
 }
 
-const MAX_ELEMS: usize = 120;
+const MAX_ELEMS: usize = 200;
 
 fn gen_conv(rng: &mut Rng, opts: &GenOpts, input: ShapeCfg) -> Option<LayerCfg> {
     for _ in 0..8 {
         let l = LayerCfg::Conv {
-            filters: rng.range(1, 3),
+            // mostly 1-3 filters; one layer in six has 5-8 (parallel-over-filters code paths
+            // only split differently from about five items on)
+            filters: if rng.chance(0.17) { rng.range(5, 8) } else { rng.range(1, 3) },
             kernel: pair(rng, 1, 3),
             stride: pair(rng, 1, 2),
             padding: pair(rng, 0, 1),
@@ -88,7 +90,7 @@ fn gen_conv(rng: &mut Rng, opts: &GenOpts, input: ShapeCfg) -> Option<LayerCfg> 
 fn gen_deconv(rng: &mut Rng, opts: &GenOpts, input: ShapeCfg) -> Option<LayerCfg> {
     for _ in 0..8 {
         let l = LayerCfg::Deconv {
-            filters: rng.range(1, 2),
+            filters: if rng.chance(0.2) { rng.range(5, 8) } else { rng.range(1, 2) },
             kernel: pair(rng, 1, 3),
             stride: pair(rng, 1, 2),
             padding: pair(rng, 0, 1),
